@@ -243,7 +243,11 @@ func c15RefusedLoads(run *vfRun, sc *c15Scanner, schemeName string, caseIdx int,
 	defer pc.Close()
 
 	for ki, k := range kinds {
-		for _, path := range []string{"start", "control", "selfsign"} {
+		var outcomes []string
+		for pi, path := range []string{"start", "control", "selfsign"} {
+			if pi == 0 {
+				defer func(name string, o *[]string) { run.Note("refused load " + name + ": " + strings.Join(*o, " ")) }(k.name, &outcomes)
+			}
 			rng := vfNewRng(vfCaseSeed(vfSeed(), "C15-refused/"+k.name+"/"+path, caseIdx))
 			id := fmt.Sprintf("vfbad%02d", ki)
 			phase := "refused:" + path + ":" + k.name
@@ -336,6 +340,7 @@ func c15RefusedLoads(run *vfRun, sc *c15Scanner, schemeName string, caseIdx int,
 					sc.add("log", "refused-selfsign-debug-log", b)
 				}
 			}
+			outcomes = append(outcomes, path+"="+outcome)
 			run.Count("refused_loads."+outcome, 1)
 			run.Seen("refused_outcomes", k.name+"/"+path+"/"+outcome)
 		}
